@@ -547,6 +547,7 @@ class Directive:
         self.tails = []         # (kv, lines)   R9 tail binding
         self.rebinds = []       # (param, newname)  R10 parameter rebind
         self.cut = None         # (anchor, return expr)  L4 prefix lifting
+        self.args = []          # (anchor, new argument text)  R12 call-argument replacement
 
 
 def parse_template(text):
@@ -664,6 +665,12 @@ def parse_template(text):
                             raise LiftError("template line %d: bad cut directive" % start_line)
                         else:
                             d.cut = (unesc(mm.group(1)), unesc(mm.group(2)))
+                    elif kw == 'arg':
+                        # R12 call-argument replacement: `arg "<anchor containing the call's '('>" => "<new argument text>"`
+                        mm = SUB_RX.match(arg)
+                        if not mm:
+                            raise LiftError("template line %d: bad arg directive %r" % (start_line, arg))
+                        d.args.append((unesc(mm.group(1)), unesc(mm.group(2))))
                     elif kw == 'rebind':
                         a_, b_ = arg.split()
                         d.rebinds.append((a_, b_))
@@ -854,6 +861,21 @@ def lift_one(d, repo, canary=False, rename_suffix=None):
         n = RULES[r](body)
         if n:
             info['rules'][r] = n
+    # R12 call-argument replacement: the whole argument list of ONE call -- typically a closure that captures `&mut`
+    # state, which is lifted separately as a block (L7) -- is replaced, whatever its text is; the anchor locates the call
+    # (its first '(' is the call's opening parenthesis), so a change INSIDE the argument does not lose the anchor
+    for (anchor, newarg) in d.args:
+        offs = find_code_text(body.s, body.k, anchor)
+        if len(offs) != 1:
+            raise LiftError("%s: arg anchor %r found %d times" % (info['name'], anchor, len(offs)))
+        po = offs[0] + anchor.index('(')
+        pc = match_close(body.s, body.k, po)
+        if pc is None or pc < 0:
+            raise LiftError("%s: arg anchor %r: unbalanced call" % (info['name'], anchor))
+        dropped = body.s[po + 1:pc]
+        body.replace(po + 1, pc, newarg, keep_origin=True)
+        info.setdefault('args', []).append({'anchor': anchor, 'new': newarg, 'dropped_sha256': hashlib.sha256(dropped.encode()).hexdigest(), 'dropped_lines': dropped.count('\n') + 1})
+        info['rules']['R12'] = info['rules'].get('R12', 0) + 1
     # explicit substitutions apply to signature + body
     for (old, new, cnt) in d.subs:
         tot = 0
